@@ -69,10 +69,12 @@ def signature(case, mm):
     if k == "out":
         a = case["args"]
         base = "keys:%s" % what
-        if what in ("rewind", "view_rewind"):
-            base += ":rw=%s:same_seed=%s:exp=%s:got=%s" % (d.get("rw", "view"), str(d.get("same_seed")).lower(), d.get("exp"), d.get("got"))
-            if what == "view_rewind":
-                base += ":vkdepth=%s" % d.get("prefix_depth")
+        if what == "view_rewind":
+            # one signature per (expected, observed, amount class, mode): independent of depths
+            return "keys:view_rewind:same_seed=%s:exp=%s:got=%s:amt=%s:mode=%s" % (
+                str(d.get("same_seed")).lower(), d.get("exp"), d.get("got"), a["amt"], a["mode"])
+        if what == "rewind":
+            base += ":rw=%s:same_seed=%s:exp=%s:got=%s" % (d.get("rw"), str(d.get("same_seed")).lower(), d.get("exp"), d.get("got"))
         elif "differs_in" in d:
             base += ":differs_in=%s" % d["differs_in"]
         return "%s:fam=%s:fmt=%s:depth=%d:mode=%s" % (base, a["fam"], a["fmt"], len(a["path"]), a["mode"])
